@@ -36,6 +36,7 @@ func RunPath(p *Program, s *smt.Solver, entry *ssa.Function, prefix []Decision, 
 		m.inInit = false
 		m.settle()
 		m.baseG = len(m.gs)
+		m.cur.points = 0 // points passed during package initialisation are not seen by the native replay
 		m.call(entry, nil, nil, 0)
 	})
 	g0.resume <- true
